@@ -909,4 +909,242 @@ theorem tickStepper_inv10 (P : Prog) (c : Cfg) (h : Inv10 c) (h2 : Inv2 c) : Inv
     · exact h
   · exact h
 
+/-! ### control calls and scheduled callbacks -/
+
+/-- nothing the invariant looks at changed -/
+theorem Inv10.same {c c' : Cfg} (h : Inv10 c) (h1 : c'.pc = c.pc) (h2 : c'.interrupt = c.interrupt)
+    (h3 : c'.actions = c.actions) (h4 : c'.stepping = c.stepping) (h5 : c'.paused = c.paused) (h6 : c'.wfs = c.wfs)
+    (h7 : c'.pfs = c.pfs) (h8 : c'.st = c.st) : Inv10 c' :=
+  h.tr (TR.of_eq h1 h2 h3 h4 h5 h6 h7) (Or.inl h8)
+
+theorem Inv10.ar {c c' : Cfg} (h : Inv10 c) (r : AR c c') (hi : c'.interrupt = c.interrupt) (hia : IA c') : Inv10 c' := by
+  refine ⟨h.s.ar r, hia, ?_, ?_⟩
+  · intro hq; rw [hi]; apply h.qi; unfold Quiet at *; rw [r.pc] at hq; exact hq
+  · intro hq; rw [r.stepping]; apply h.qs; unfold Quiet at *; rw [r.pc] at hq; exact hq
+
+theorem hand_inv10 (c : Cfg) (i : Nat) (h : Inv10 c) : Inv10 (hand c i) := by
+  unfold hand; split
+  · exact h
+  · exact h.same rfl rfl rfl rfl rfl rfl rfl rfl
+
+theorem interruptState_tr (c : Cfg) (k : Nat) : TR c (interruptState c k) := by
+  unfold interruptState; split
+  · split
+    · rename_i hp
+      exact ⟨rfl, rfl, rfl, rfl, rfl, MonoW.set_pending hp _, MonoP.rfl' _⟩
+    · exact TR.rfl' c
+  · exact TR.rfl' c
+
+theorem interruptState_st (c : Cfg) (k : Nat) : (interruptState c k).st = c.st := by
+  unfold interruptState; split
+  · split <;> rfl
+  · rfl
+
+/-- `pause()` / `kill()` during a step: a fresh pending interrupt action; the coroutine is inside the step -/
+theorem requestInterrupt_inv10 (c : Cfg) (k : AKind) (h : Inv10 c) (hst : c.stepping = true) :
+    Inv10 (requestInterrupt c k) := by
+  unfold requestInterrupt
+  have hnq : ¬ Quiet c := by intro hq; rw [h.qs hq] at hst; cases hst
+  have h0 : InvS { c with nextCookie := c.nextCookie + 1 } := ⟨h.s.nocrash, h.s.aw, h.s.ap, h.s.pv, h.s.wv, h.s.tp⟩
+  have a := setInterruptFromExc_ar { c with nextCookie := c.nextCookie + 1 } k c.nextCookie
+  have r := interruptState_tr (setInterruptFromExc { c with nextCookie := c.nextCookie + 1 } k c.nextCookie) c.nextCookie
+  have hpc : (interruptState (setInterruptFromExc { c with nextCookie := c.nextCookie + 1 } k c.nextCookie) c.nextCookie).pc = c.pc :=
+    r.pc.trans a.pc
+  refine ⟨(h0.ar a).tr r (Or.inl (interruptState_st _ _)), (setInterruptFromExc_ia _ _ _).of_eq r.interrupt r.actions, ?_, ?_⟩
+  · intro hq; exfalso; apply hnq; unfold Quiet at *; rw [hpc] at hq; exact hq
+  · intro hq; exfalso; apply hnq; unfold Quiet at *; rw [hpc] at hq; exact hq
+
+theorem pause_inv10 (c : Cfg) (h : Inv10 c) : Inv10 (pause c).1 := by
+  unfold pause
+  split
+  · exact h
+  · rename_i hnt
+    split
+    · exact h
+    · rename_i hnp
+      split
+      · exact hand_inv10 _ _ h
+      · split
+        · exact h
+        · split
+          · rename_i hstep
+            dsimp only
+            have hs : Inv10 { requestInterrupt c .pause with pausing := (requestInterrupt c .pause).interrupt } :=
+              (requestInterrupt_inv10 c .pause h hstep).same rfl rfl rfl rfl rfl rfl rfl rfl
+            split
+            · exact hand_inv10 _ _ hs
+            · exact hs
+          · have hpa : c.paused = none := by
+              cases hpa : c.paused with
+              | none => rfl
+              | some pf => simp [hpa] at hnp
+            have hl : terminal c.st.label = false := by simpa using hnt
+            have hq : Hq c := by
+              intro pf hp
+              rcases (h.s.ap pf hp).2 with h1 | h1
+              · rw [hpa] at h1; cases h1
+              · exact h1
+            exact ⟨doPauseHooks_invS c h.s hq (fun _ _ => hl), h.ia, h.qi, h.qs⟩
+
+/-- `play()` while paused: the pause future is released and forgotten -/
+theorem inv10_unpause {c d : Cfg} (h : Inv10 c) (pf : Nat) (hpa : c.paused = some pf) (h1 : d.pc = c.pc) (h2 : d.st = c.st)
+    (h3 : d.wfs = c.wfs) (h4 : d.interrupt = c.interrupt) (h5 : d.actions = c.actions) (h6 : d.stepping = c.stepping)
+    (h7 : d.paused = none) (h8 : MonoP c.pfs d.pfs) (h9 : d.pfs[pf]? = some true) : Inv10 d := by
+  refine ⟨⟨?_, ?_, ?_, ?_, ?_, ?_⟩, h.ia.of_eq h4 h5, ?_, ?_⟩
+  · intro e; rw [h1]; exact h.s.nocrash e
+  · intro wf hp; rw [h1] at hp; unfold WOk; rw [h2, h3]; exact h.s.aw wf hp
+  · intro p hp; rw [h1] at hp
+    obtain ⟨a, b⟩ := h.s.ap p hp
+    refine ⟨Nat.lt_of_lt_of_le a h8.1, Or.inr ?_⟩
+    rcases b with b | b
+    · rw [hpa] at b; cases b; exact h9
+    · exact h8.2 p b
+  · intro p hp; rw [h7] at hp; cases hp
+  · unfold WV; rw [h2, h3]; exact h.s.wv
+  · intro p _ _ p' hp'; rw [h7] at hp'; cases hp'
+  · intro hq; rw [h4]; apply h.qi; unfold Quiet at *; rw [h1] at hq; exact hq
+  · intro hq; rw [h6]; apply h.qs; unfold Quiet at *; rw [h1] at hq; exact hq
+
+theorem play_inv10 (c : Cfg) (h : Inv10 c) : Inv10 (play c).1 := by
+  unfold play
+  split
+  · split
+    · rename_i i _
+      have a : AR c { cancelAction c i with pausing := none } :=
+        AR.trans (cancelAction_ar c i) ⟨rfl, rfl, rfl, rfl, rfl, rfl, rfl⟩
+      exact h.ar a (cancelAction_interrupt c i) ((cancelAction_ia c i h.ia).of_eq rfl rfl)
+    · exact h
+  · rename_i pf hpa
+    dsimp only
+    have hlt := h.s.pv pf hpa
+    split
+    · exact inv10_unpause h pf hpa rfl rfl rfl rfl rfl rfl rfl (MonoP.set_true _ _) (by simp [setAt, hlt])
+    · rename_i hnf
+      have h9 : c.pfs[pf]? = some true := by
+        rw [List.getElem?_eq_getElem hlt] at hnf ⊢
+        cases hb : c.pfs[pf] with
+        | true => rfl
+        | false => rw [hb] at hnf; exact absurd rfl hnf
+      exact inv10_unpause h pf hpa rfl rfl rfl rfl rfl rfl rfl (MonoP.rfl' _) h9
+
+theorem kill_inv10 (c : Cfg) (h : Inv10 c) (h2 : Inv2 c) : Inv10 (kill c).1 := by
+  unfold kill
+  split
+  · exact h
+  · split
+    · exact h
+    · rename_i hnk hnt
+      have hl : terminal c.st.label = false := by simpa using hnt
+      split
+      · exact hand_inv10 _ _ h
+      · split
+        · rename_i hstep
+          dsimp only
+          have hs : Inv10 { requestInterrupt c .kill with killing := (requestInterrupt c .kill).interrupt } :=
+            (requestInterrupt_inv10 c .kill h hstep).same rfl rfl rfl rfl rfl rfl rfl rfl
+          split
+          · exact hand_inv10 _ _ hs
+          · exact hs
+        · exact transitionTo_inv10 c .killed h (h2.live hl).2.1 (targetOk_killed c)
+
+theorem deliver_tr (c : Cfg) (o : WF) : TR c (deliver c o) := by
+  unfold deliver
+  split
+  · split
+    · rename_i hp
+      exact ⟨rfl, rfl, rfl, rfl, rfl, MonoW.set_pending hp _, MonoP.rfl' _⟩
+    · split
+      · exact TR.of_eq rfl rfl rfl rfl rfl rfl rfl
+      · exact TR.rfl' c
+    · exact TR.rfl' c
+  · exact TR.rfl' c
+
+theorem deliver_stw (c : Cfg) (o : WF) : StW c (deliver c o) := by
+  unfold deliver
+  split
+  · rename_i fn wf wakeup aw hst
+    split
+    · exact Or.inl rfl
+    · split
+      · exact Or.inr ⟨fn, wf, wakeup, aw, some o, aw, hst, rfl⟩
+      · exact Or.inl rfl
+    · exact Or.inl rfl
+  · exact Or.inl rfl
+
+theorem resume_inv10 (c : Cfg) (v) (h : Inv10 c) : Inv10 (resume c v).1 := by
+  unfold resume; split
+  · exact h.tr (deliver_tr ..) (deliver_stw ..)
+  · exact h
+
+theorem fail_inv10 (c : Cfg) (e) (h : Inv10 c) (h2 : Inv2 c) : Inv10 (fail c e).1 := by
+  unfold fail; split
+  · exact h
+  · rename_i hnt
+    exact transitionTo_inv10 c _ h (h2.live (by simpa using hnt)).2.1 (targetOk_excepted ..)
+
+theorem cancelFut_inv10 (c : Cfg) (h : Inv10 c) : Inv10 (cancelFut c).1 := by
+  unfold cancelFut; split
+  · exact h.same rfl rfl rfl rfl rfl rfl rfl rfl
+  · exact h
+
+theorem complete_inv10 (c : Cfg) (f o) (h : Inv10 c) : Inv10 (complete c f o) := by
+  unfold complete; split
+  · dsimp only; split <;> exact h.same rfl rfl rfl rfl rfl rfl rfl rfl
+  · exact h
+
+theorem awaitableDone_inv10 (c : Cfg) (f) (h : Inv10 c) : Inv10 (awaitableDone c f) := by
+  unfold awaitableDone
+  have hold : ∀ d : Cfg, Inv10 d → Inv10 (match d.efKeys.find? (·.1 = f), d.efs[f]? with
+      | some (_, key), some (EFut.result v) => { d with ctx := (key, v) :: d.ctx.filter (·.1 ≠ key) }
+      | _, _ => d) := by
+    intro d hd; split
+    · exact hd.same rfl rfl rfl rfl rfl rfl rfl rfl
+    · exact hd
+  dsimp only
+  split
+  · rename_i fn wf wakeup aw hst
+    split
+    · exact hold c h
+    · have h1 : Inv10 { c with st := .waiting fn wf wakeup (aw.filter (·.1 ≠ f)) } :=
+        h.tr (TR.of_eq rfl rfl rfl rfl rfl rfl rfl) (Or.inr ⟨fn, wf, wakeup, aw, wakeup, _, hst, rfl⟩)
+      split
+      · split
+        · refine Inv10.tr ?_ (deliver_tr _ _) (deliver_stw _ _)
+          exact h1.same rfl rfl rfl rfl rfl rfl rfl rfl
+        · exact h1.same rfl rfl rfl rfl rfl rfl rfl rfl
+      · exact h1.tr (deliver_tr ..) (deliver_stw ..)
+      · exact h1
+  · exact hold c h
+
+theorem tickCb_inv10 (c : Cfg) (cb) (h : Inv10 c) (h2 : Inv2 c) : Inv10 (tickCb c cb) := by
+  unfold tickCb; split
+  · have h1 : Inv10 { c with ready := c.ready.erase cb } := h.same rfl rfl rfl rfl rfl rfl rfl rfl
+    have h21 : Inv2 { c with ready := c.ready.erase cb } := h2.same2 ⟨rfl, rfl, rfl, rfl, rfl, rfl⟩
+    split
+    · exact awaitableDone_inv10 _ _ h1
+    · exact (kill_inv10 _ h1 h21).same rfl rfl rfl rfl rfl rfl rfl rfl
+    · split
+      · exact fail_inv10 _ _ h1 h21
+      · exact h1
+  · exact h
+
+/-- every event preserves the linking invariant -/
+theorem step_inv10 (P : Prog) (c : Cfg) (ev : Ev) (h : Inv10 c) (h2 : Inv2 c) : Inv10 (step P c ev).1 := by
+  cases ev <;> simp only [step]
+  · exact tickStepper_inv10 P c h h2
+  · exact tickCb_inv10 c _ h h2
+  · exact pause_inv10 c h
+  · exact play_inv10 c h
+  · exact kill_inv10 c h h2
+  · exact resume_inv10 c _ h
+  · exact fail_inv10 c _ h h2
+  · exact cancelFut_inv10 c h
+  · exact complete_inv10 c _ _ h
+  · exact h.same rfl rfl rfl rfl rfl rfl rfl rfl
+
+theorem run_inv10 (P : Prog) (c0 : Cfg) (evs : List Ev) (h2 : Inv2 c0) (h : Inv10 c0) : Inv10 (run P c0 evs) := by
+  induction evs generalizing c0 with
+  | nil => exact h
+  | cons e es ih => exact ih _ (step_inv2 P c0 e h2) (step_inv10 P c0 e h h2)
+
 end PMF
